@@ -206,6 +206,33 @@ pub fn file_text(kind: &str, n: u32, variant: u32) -> String {
             1 => format!("local s{n} = GetShape{n}()\nwhile s{n} do\n    local inner{n} = s{n}\n    s{n} = nil\n    print(inner{n})\nend\nlocal fin{n} = s{n}\nreturn fin{n}\n"),
             _ => format!("local s{n} = GetShape{n}() or \"none\"\nreturn s{n}\n"),
         },
+        // ---- a module table (plain table literal) that another file extends through `require`
+        "mx_base" => match v {
+            0 => format!("local M = {{}}\n\n---base doc\nfunction M.base()\n    return 1\nend\n\nM.count = 0\n\nreturn M\n"),
+            1 => format!("local M = {{}}\nfunction M.base()\n    return \"one\"\nend\nfunction M.more() end\nreturn M\n"),
+            _ => format!("return {{ base = function() return {n} end }}\n"),
+        },
+        "mx_ext" => match v {
+            0 => format!("local M = require(\"mx.base{n}\")\n\n---extension doc\nfunction M.extra()\n    return \"s\"\nend\n\nM.flag = true\nreturn M\n"),
+            1 => format!("local M = require(\"mx.base{n}\")\nfunction M.extra()\n    return 2\nend\nfunction M.base2() return M.base() end\nreturn M\n"),
+            _ => format!("local M = require(\"mx.base{n}\")\nreturn M\n"),
+        },
+        "mx_use" => match v {
+            0 => format!("local M = require(\"mx.base{n}\")\nlocal e{n} = M.extra()\nlocal b{n} = M.base()\nlocal f{n} = M.flag\nreturn e{n}, b{n}, f{n}\n"),
+            1 => format!("local E = require(\"mx.ext{n}\")\nlocal e{n} = E.extra()\nlocal c{n} = E.count\nreturn e{n}, c{n}\n"),
+            _ => format!("return require(\"mx.base{n}\").extra\n"),
+        },
+        // ---- file-scoped (private) types with the same name in two files
+        "priv_a" => match v {
+            0 => format!("---helper of a\n---@class (private) Helper{n}\n---@field a integer\n\n---@alias (private) HId{n} integer\n\n---@type Helper{n}\nlocal h{n} = {{ a = 1 }}\n---@type HId{n}\nlocal id{n} = 1\nreturn h{n}.a, id{n}\n"),
+            1 => format!("---@class (private) Helper{n}\n---@field a string\n---@field a2 boolean\n\n---@type Helper{n}\nlocal h{n} = {{}}\nreturn h{n}.a2\n"),
+            _ => format!("---@class Helper{n}\n---@field pub integer\n"),
+        },
+        "priv_b" => match v {
+            0 => format!("---helper of b\n---@class (private) Helper{n}\n---@field b string\n\n---@alias (private) HId{n} string\n\n---@type Helper{n}\nlocal h{n} = {{ b = \"x\" }}\n---@type HId{n}\nlocal id{n} = \"i\"\nreturn h{n}.b, id{n}\n"),
+            1 => format!("---@enum (private) Helper{n}\nlocal Helper{n} = {{ One = 1 }}\nreturn Helper{n}\n"),
+            _ => format!("---@type Helper{n}\nlocal h{n} = {{}}\nreturn h{n}\n"),
+        },
         _ => format!("return {n}\n"),
     }
 }
@@ -229,6 +256,8 @@ pub fn group(kind: &str, n: u32) -> Vec<FileSpec> {
         "namespace" => vec![f(format!("ns/def{n}.lua"), "ns_def"), f(format!("ns/use{n}.lua"), "ns_use")],
         "callable" => vec![f(format!("call/def{n}.lua"), "call_def"), f(format!("call/use{n}.lua"), "call_use")],
         "flow" => vec![f(format!("flow/def{n}.lua"), "flow_def"), f(format!("flow/use{n}.lua"), "flow_use")],
+        "modext" => vec![f(format!("mx/base{n}.lua"), "mx_base"), f(format!("mx/ext{n}.lua"), "mx_ext"), f(format!("mx/use{n}.lua"), "mx_use")],
+        "private" => vec![f(format!("pv/a{n}.lua"), "priv_a"), f(format!("pv/b{n}.lua"), "priv_b")],
         "inherit" => vec![
             f(format!("inh/bases{n}.lua"), "inh_bases"),
             f(format!("inh/part_a{n}.lua"), "inh_part_a"),
@@ -239,7 +268,7 @@ pub fn group(kind: &str, n: u32) -> Vec<FileSpec> {
     }
 }
 
-pub const GROUP_KINDS: &[&str] = &["class", "glob", "mod", "cycle", "types", "diag", "broken", "meta", "lib", "inherit", "member", "generic", "overload", "namespace", "callable", "flow"];
+pub const GROUP_KINDS: &[&str] = &["class", "glob", "mod", "cycle", "types", "diag", "broken", "meta", "lib", "inherit", "member", "generic", "overload", "namespace", "callable", "flow", "modext", "private"];
 
 /// Draw a workspace of `lo..=hi` files.
 pub fn gen_workspace(r: &mut Rng, lo: usize, hi: usize) -> Vec<FileSpec> {
